@@ -22,6 +22,9 @@ import (
 	"github.com/prometheus/prometheus/model/labels"
 	"github.com/prometheus/prometheus/promql"
 	"github.com/prometheus/prometheus/storage"
+
+	"github.com/thanos-community/promql-engine/api"
+	"github.com/thanos-community/promql-engine/engine"
 )
 
 var errInjected = errors.New("injected storage fault")
@@ -512,6 +515,91 @@ func cancelOnce(c *Case, k int, mode cancelMode) (res Result, hung bool, leak st
 // from the context passed to Querier().
 func qctxDone(q any) <-chan struct{} { return lastQuerierCtxDone() }
 
+// cancelDistOnce: the query through a distributed engine over 2-3 remote engines whose storages all
+// block from their k-th event on (counted across the engines) until the query is cancelled - so
+// that several remote executions fail at the same moment - with the cancellation coming from the
+// caller's context or from Cancel().
+func cancelDistOnce(c *Case, k int, viaQuery bool) (res Result, hung bool, leak string, fired bool) {
+	data := c.Data()
+	np := 2 + int(c.Start%2+2)%2
+	parts := make([][]SeriesData, np)
+	for i, s := range data {
+		parts[i%np] = append(parts[i%np], s)
+	}
+	if c.Procs > 0 {
+		runtime.GOMAXPROCS(c.Procs)
+	}
+	base := goroutineBaseline()
+	ctx, cancel := context.WithCancel(context.Background())
+	defer cancel()
+	var q promql.Query
+	var qmu sync.Mutex
+	var counter int64
+	var firedFlag int32
+	hook := func(kind string, _ int64, info any) Action {
+		n := atomic.AddInt64(&counter, 1)
+		if n < int64(k) || kind == EvClose {
+			return Action{}
+		}
+		if atomic.CompareAndSwapInt32(&firedFlag, 0, 1) {
+			go func() {
+				time.Sleep(5 * time.Millisecond)
+				if viaQuery {
+					qmu.Lock()
+					qq := q
+					qmu.Unlock()
+					if qq != nil {
+						qq.Cancel()
+						return
+					}
+				}
+				cancel()
+			}()
+		}
+		select {
+		case <-ctx.Done():
+		case <-qctxDone(nil):
+		case <-time.After(8 * time.Second):
+		}
+		if errorCapable[kind] {
+			return Action{Err: context.Canceled}
+		}
+		return Action{}
+	}
+	var engines []api.RemoteEngine
+	for _, p := range parts {
+		st := NewMemStorage(p)
+		st.SetHook(hook)
+		engines = append(engines, remoteEngine{c: c, st: st})
+	}
+	de := engine.NewDistributedEngine(engine.Opts{
+		EngineOpts: promql.EngineOpts{Timeout: time.Hour, MaxSamples: 50000000,
+			LookbackDelta: time.Duration(c.Lookback) * time.Millisecond, EnableAtModifier: true, EnableNegativeOffset: true},
+		DisableFallback: true,
+	}, api.NewStaticEndpoints(engines))
+	local := NewMemStorage(data)
+	local.SetHook(hook)
+	qq, err := c.NewQuery(de, local)
+	if err != nil {
+		return Result{Kind: "err", Err: "create: " + err.Error()}, false, "", false
+	}
+	qmu.Lock()
+	q = qq
+	qmu.Unlock()
+	done := make(chan Result, 1)
+	go func() { done <- Canon(qq.Exec(ctx), c) }()
+	select {
+	case res = <-done:
+	case <-time.After(10 * time.Second):
+		return Result{}, true, goroutineDump(), atomic.LoadInt32(&firedFlag) == 1
+	}
+	qq.Close()
+	if n, ok := waitGoroutines(base, 3*time.Second); !ok {
+		leak = fmt.Sprintf("%d goroutine(s) still running 3s after Exec returned and the query was closed: %s", n-base, goroutineDump())
+	}
+	return res, false, leak, atomic.LoadInt32(&firedFlag) == 1
+}
+
 func cancelCase(c *Case, lean *LeanDriver) Verdict {
 	v := baseVerdict(c, "cancel")
 	kinds, clean := countEvents(c)
@@ -557,6 +645,26 @@ func cancelCase(c *Case, lean *LeanDriver) Verdict {
 		}
 		if lc := lifecycleComplaint(st); lc != "" {
 			v.Other = where + ": " + lc
+			return v
+		}
+	}
+	// the same through a distributed engine: all remote executions blocked in their storages when
+	// the cancellation comes
+	for i, k := range []int{1, 2, 3, 5, 9} {
+		res, hung, leak, fired := cancelDistOnce(c, k, i%2 == 1)
+		where := fmt.Sprintf("distributed execution, cancellation while the storages block from event %d on", k)
+		if hung {
+			v.Other = where + ": Exec did not return within 10s: " + leak
+			return v
+		}
+		if !fired {
+			break
+		}
+		if res.Kind == "err" && strings.HasPrefix(res.Err, "create: ") {
+			break
+		}
+		if leak != "" {
+			v.Other = where + ": " + leak
 			return v
 		}
 	}
